@@ -237,13 +237,19 @@ struct World {
   }
 
   // PortBroker::m_ports; "x<i>" = key of a port that has been deleted
+  template <typename C>
+  static bool has_key(const C &c, const std::pair<string, const ola::Port*> &key) {
+    return std::find(c.begin(), c.end(), key) != c.end();
+  }
   string broker_s() {
     vector<string> v;
+#ifdef C03_HAVE_BROKER_PORTS
     for (size_t i = 0; i < orig.size(); i++) {
       std::pair<string, const ola::Port*> key(port_ids[i], orig[i]);
-      if (broker.m_ports.count(key))
+      if (has_key(broker.m_ports, key))
         v.push_back((ports[i].port() ? "" : "x") + vh::str(i));
     }
+#endif
     return join(v, ".");
   }
 
@@ -261,13 +267,19 @@ struct World {
     return s;
   }
 
+  // the GC candidate queue, as a set of universe numbers, whatever container holds it
+  template <typename C>
+  static string cand_ids(const C &c) {
+    set<unsigned int> v;
+    for (typename C::const_iterator it = c.begin(); it != c.end(); ++it) v.insert((*it)->UniverseId());
+    return join(vector<unsigned int>(v.begin(), v.end()), ".");
+  }
   string cands() {
-    vector<unsigned int> v;
-    for (set<Universe*>::iterator it = store.m_deletion_candidates.begin();
-         it != store.m_deletion_candidates.end(); ++it)
-      v.push_back((*it)->UniverseId());
-    std::sort(v.begin(), v.end());
-    return join(v, ".");
+#ifdef C03_HAVE_CANDS
+    return cand_ids(store.m_deletion_candidates);
+#else
+    return "";
+#endif
   }
 };
 
